@@ -36,6 +36,9 @@ const SYNCED: u8 = 2;
 const EVENT: u8 = 3;
 const UNLINKED: u8 = 4;
 
+/// Upper bound on the capacity reserved ahead of the data on the strength of a length read from the wire.
+const MAX_RESERVE: usize = 64 * 1024;
+
 use crate::{
     model::{DownlinkNotification, DownlinkOperation},
     MapMessage, LEN_SIZE, TAG_SIZE,
@@ -208,7 +211,7 @@ where
                         EVENT => {
                             if src.remaining() < TAG_SIZE + LEN_SIZE {
                                 let required = TAG_SIZE + LEN_SIZE - src.remaining();
-                                src.reserve(required);
+                                src.reserve(required.min(MAX_RESERVE));
                                 break Ok(None);
                             } else {
                                 src.advance(1);
@@ -331,7 +334,7 @@ impl Decoder for DownlinkOperationDecoder {
                 let body = src.split_to(len).freeze();
                 Ok(Some(DownlinkOperation { body }))
             } else {
-                src.reserve(required);
+                src.reserve(required.min(MAX_RESERVE));
                 Ok(None)
             }
         } else {
